@@ -19,7 +19,8 @@ def cellGood : Ty → Option DV → Bool
   | .ts, some (.ts t) =>
       tsPrintable t && decide (chronoMinYear < (civilFromDays ((t - thirtyYearsUs) / 86400000000)).1)
   | .interval, some (.interval m d ms) =>
-      inI32 m && inI32 d && inI32 ms && decide (ms % 1000 = 0) && !(decide (m = 0 ∧ d = 0 ∧ ms = 0))
+      inI32 m && inI32 d && inI32 ms && !(decide (m = 0 ∧ d = 0 ∧ ms = 0))
+  | _, none => true          -- NULL: written as the empty field, read back as NULL
   | _, _ => false
 
 theorem intDigits_ne_nil (v : Int) : intDigits v ≠ [] := by
@@ -53,18 +54,18 @@ theorem joinSp_ne_nil : ∀ toks : List Bytes, toks ≠ [] → (toks.all tokOk) 
 theorem fieldToks_ne_nil (v : Int) (u : Bytes) (h : v ≠ 0) : fieldToks v u ≠ [] := by
   simp [fieldToks, h]
 
-theorem displayInterval_ne_nil (m d ms : Int) (hsec : ms % 1000 = 0) (hnz : ¬ (m = 0 ∧ d = 0 ∧ ms = 0)) :
+theorem displayInterval_ne_nil (m d ms : Int) (hnz : ¬ (m = 0 ∧ d = 0 ∧ ms = 0)) :
     displayInterval m d ms ≠ [] := by
   obtain ⟨m1, m2, m3⟩ := tdm m 12 (by decide)
   obtain ⟨s1, s2, s3⟩ := tdm ms 1000 (by decide)
   obtain ⟨t1, t2, t3⟩ := tdm (ms.tdiv 1000) 60 (by decide)
   obtain ⟨u1, u2, u3⟩ := tdm ((ms.tdiv 1000).tdiv 60) 60 (by decide)
   unfold displayInterval intervalFields
-  apply joinSp_ne_nil _ _ (allTokOk_fields _ _ _ _ _ _)
-  rw [intervalTokens6]
+  apply joinSp_ne_nil _ _ (allTokOk_fields _ _ _ _ _ _ _)
+  rw [intervalTokens7]
   -- some field is non-zero
   have hsome : m.tdiv 12 ≠ 0 ∨ m.tmod 12 ≠ 0 ∨ d ≠ 0 ∨ ((ms.tdiv 1000).tdiv 60).tdiv 60 ≠ 0 ∨
-      ((ms.tdiv 1000).tdiv 60).tmod 60 ≠ 0 ∨ (ms.tdiv 1000).tmod 60 ≠ 0 := by
+      ((ms.tdiv 1000).tdiv 60).tmod 60 ≠ 0 ∨ (ms.tdiv 1000).tmod 60 ≠ 0 ∨ ms.tmod 1000 ≠ 0 := by
     by_cases hm : m = 0
     · by_cases hd : d = 0
       · have hms : ms ≠ 0 := fun h => hnz ⟨hm, hd, h⟩
@@ -78,13 +79,14 @@ theorem displayInterval_ne_nil (m d ms : Int) (hsec : ms % 1000 = 0) (hnz : ¬ (
       · have := m3 hp; omega
   intro he
   simp only [List.append_eq_nil_iff] at he
-  rcases hsome with h | h | h | h | h | h
+  rcases hsome with h | h | h | h | h | h | h
   · exact fieldToks_ne_nil _ _ h he.1
   · exact fieldToks_ne_nil _ _ h he.2.1
   · exact fieldToks_ne_nil _ _ h he.2.2.1
   · exact fieldToks_ne_nil _ _ h he.2.2.2.1
   · exact fieldToks_ne_nil _ _ h he.2.2.2.2.1
   · exact fieldToks_ne_nil _ _ h he.2.2.2.2.2.1
+  · exact fieldToks_ne_nil _ _ h he.2.2.2.2.2.2.1
 
 theorem parseCell_nonempty (ty : Ty) (t : Bytes) (h : t ≠ []) :
     parseCell ty t = (match ty with
@@ -103,36 +105,36 @@ theorem parseCell_nonempty (ty : Ty) (t : Bytes) (h : t ≠ []) :
 
 /-- every good cell satisfies `CellOk` -/
 theorem cellGood_spec (ty : Ty) (c : Option DV) (h : cellGood ty c = true) :
-    ∃ t, cellText c = some t ∧ t ≠ [] ∧ parseCell ty t = some (.ok c) := by
+    ∃ t, cellText c = some t ∧ parseCell ty t = some (.ok c) := by
   cases ty <;> cases c with
-    | none => simp [cellGood] at h
+    | none => exact ⟨[], rfl, by simp [parseCell]⟩
     | some v => ?_
   all_goals (cases v <;> simp only [cellGood, Bool.false_eq_true] at h)
   case bool.some.bool b =>
-    refine ⟨displayBool b, rfl, by cases b <;> simp [displayBool], ?_⟩
+    refine ⟨displayBool b, rfl, ?_⟩
     rw [parseCell_nonempty _ _ (by cases b <;> simp [displayBool])]
     simp [bool_roundtrip, okSome]
   case i16.some.i16 v =>
     rw [decide_eq_true_eq] at h
-    refine ⟨intDigits v, rfl, intDigits_ne_nil v, ?_⟩
+    refine ⟨intDigits v, rfl, ?_⟩
     rw [parseCell_nonempty _ _ (intDigits_ne_nil v)]
     simp [parseIntRange_intDigits _ _ _ h, okSome]
   case i32.some.i32 v =>
     rw [decide_eq_true_eq] at h
-    refine ⟨intDigits v, rfl, intDigits_ne_nil v, ?_⟩
+    refine ⟨intDigits v, rfl, ?_⟩
     rw [parseCell_nonempty _ _ (intDigits_ne_nil v)]
     simp [parseIntRange_intDigits _ _ _ h, okSome]
   case i64.some.i64 v =>
     rw [decide_eq_true_eq] at h
-    refine ⟨intDigits v, rfl, intDigits_ne_nil v, ?_⟩
+    refine ⟨intDigits v, rfl, ?_⟩
     rw [parseCell_nonempty _ _ (intDigits_ne_nil v)]
     simp [parseIntRange_intDigits _ _ _ h, okSome]
   case str.some.str s =>
     have hs : s ≠ [] := by cases s <;> simp at h ⊢
-    exact ⟨s, rfl, hs, by rw [parseCell_nonempty _ _ hs]⟩
+    exact ⟨s, rfl, by rw [parseCell_nonempty _ _ hs]⟩
   case blob.some.blob b =>
     have hb : b ≠ [] := by cases b <;> simp at h ⊢
-    refine ⟨displayBlob b, rfl, displayBlob_ne_nil b hb, ?_⟩
+    refine ⟨displayBlob b, rfl, ?_⟩
     rw [parseCell_nonempty _ _ (displayBlob_ne_nil b hb), blob_roundtrip b]
     rfl
   case date.some.date d =>
@@ -140,7 +142,7 @@ theorem cellGood_spec (ty : Ty) (c : Option DV) (h : cellGood ty c = true) :
     have ht : t ≠ [] := by
       simp only [displayDate, h, if_true] at h1
       injection h1 with h1; rw [← h1]; exact fmtYmd_ne_nil _ _ _
-    refine ⟨t, by simp [cellText, h1], ht, ?_⟩
+    refine ⟨t, by simp [cellText, h1], ?_⟩
     rw [parseCell_nonempty _ _ ht, h2]; rfl
   case ts.some.ts us =>
     simp only [Bool.and_eq_true, decide_eq_true_eq] at h
@@ -148,14 +150,14 @@ theorem cellGood_spec (ty : Ty) (c : Option DV) (h : cellGood ty c = true) :
     have ht : t ≠ [] := by
       simp only [displayTimestamp, h.1, Bool.not_true, Bool.false_eq_true, if_false] at h1
       split at h1 <;> (injection h1 with h1; rw [← h1]; simp [fmtYmd])
-    refine ⟨t, by simp [cellText, h1], ht, ?_⟩
+    refine ⟨t, by simp [cellText, h1], ?_⟩
     rw [parseCell_nonempty _ _ ht, h2]; rfl
   case interval.some.interval m d ms =>
     simp only [Bool.and_eq_true, decide_eq_true_eq, Bool.not_eq_true', decide_eq_false_iff_not] at h
-    obtain ⟨⟨⟨⟨hm, hd⟩, hms⟩, hsec⟩, hnz⟩ := h
-    have hne := displayInterval_ne_nil m d ms hsec hnz
-    refine ⟨displayInterval m d ms, rfl, hne, ?_⟩
-    rw [parseCell_nonempty _ _ hne, interval_roundtrip_partial m d ms hm hd hms hsec]
+    obtain ⟨⟨⟨hm, hd⟩, hms⟩, hnz⟩ := h
+    have hne := displayInterval_ne_nil m d ms hnz
+    refine ⟨displayInterval m d ms, rfl, ?_⟩
+    rw [parseCell_nonempty _ _ hne, interval_roundtrip m d ms hm hd hms]
     rfl
 
 end RlModel
